@@ -73,6 +73,21 @@ CHECKS = {
              "clock only moves forward; trusted: hooks in runtime.cpp, the harness operators t__/op events, the Python oracles."),
 }
 
+CHECKS["C19"] = dict(
+    level="exploration", design="DESIGN.md §3 C19",
+    technique=TECH + ": controller and executor run as real threads serialised by a seeded baton at instruction boundaries and at guarded yield sites inside runtime::execute; state-machine rules S1-S7 over the recorded action history",
+    text="Seeded search over action sequences (start, stop, abort, assembly_step, line_step, leave_scope; <= 8 quick, <= 12 thorough) from "
+         "every start situation (nothing loaded, 1-2 scripts loaded, finished, failed with error, halted by a step), issued by one thread or "
+         "by a controller and an executor thread. The threads are real but only the baton holder runs; at every yield point (each "
+         "instruction, each scheduler visit, after every compare-exchange, before every release of the run flag, between test and store "
+         "of stop/abort) the seed decides who continues. Judged: S1 one executor at a time, S2 idle states, S3 action_error iff the run "
+         "flag is held elsewhere, S4 step semantics (one instruction; line step stays on its line; leave_scope leaves), S5 stop/abort "
+         "take effect within 3 instructions and leave the VM empty, S6 abort on halted discards all scripts, S7 no crash / livelock and "
+         "the VM runs a fresh script afterwards.",
+    note="Yield-point granularity, not a memory model: torn or reordered accesses to the plain state fields are not explored (TSan is blind "
+         "under a serialising scheduler); evaluate_expression's busy-wait hand-shake is excluded; return values the documentation leaves "
+         "open are not judged. One known finding is listed in KNOWN_FINDINGS.txt (line_step overruns by one instruction across a scope change).")
+
 NOT_APPLICABLE = {
     "C01": "pure function of source text and operator registry; a compile is one atomic instruction, so there is no schedule, clock, fault or carried state to simulate",
     "C06": "str/literal/pretty-printer round trips are pure functions of one value or text; nothing to simulate",
